@@ -12,7 +12,7 @@ toupper / encb64u / decb64u; rewrite-once vs rewrite-repeat with the loop limit;
 replacement; simple-vhost and evhost document roots).  It abstains (returns no verdict) outside the
 documented domain: malformed templates, several encoders combined, a case modifier without an
 encoder, NUL bytes, a capture ending inside a %XX triplet, odd host names."""
-import base64, itertools, re
+import base64, itertools, os, re, time
 from .. import common as C
 
 MANIFEST = dict(
@@ -77,6 +77,9 @@ def ref_pct_nde(s, keep_slash):
     return bytes(out)
 
 
+HYP = set()    # defect hypotheses used only to *label* a mismatch that has already been found
+
+
 def ref_b64u_dec(s):
     """decode base64url: ASCII control characters and space are ignored, '=' ends the data; any
     other character outside the alphabet makes the input invalid (nothing is produced)"""
@@ -87,6 +90,8 @@ def ref_b64u_dec(s):
         if 1 <= c <= 0x20:
             continue
         if c not in B64U:
+            if "b64-invalid-char-ends-input" in HYP:
+                break
             return b""
         digits.append(c)
     if len(digits) % 4 == 1:
@@ -190,7 +195,7 @@ def ref_expand(tmpl, rule, cond, url):
             for name in m.group(1).split(b":")[:-1]:
                 if name not in MODS:
                     raise Abstain
-                flags |= MODS[name]
+                flags |= F_LOWER if (name == b"toupper" and "toupper-lowers" in HYP) else MODS[name]
             what = m.group(2)
             if what[:1].isdigit():
                 s, look = caps.get(int(what)) if caps is not None else (b"", b"")
@@ -527,6 +532,20 @@ def reference(line):
     raise Abstain
 
 
+def label_mismatch(ref, got):
+    """name the defect a mismatch is explained by (only used to word the report)"""
+    for hyp, label in (("toupper-lowers", " (toupper)"), ("b64-invalid-char-ends-input", " (decb64u)")):
+        HYP.add(hyp)
+        try:
+            if ref() == got:
+                return label
+        except Exception:  # noqa
+            pass
+        finally:
+            HYP.discard(hyp)
+    return ""
+
+
 def oracle(line, out):
     if out in ("<crash>", "bad-op", "badpat", "trace-bad") and not line.startswith("evhost"):
         return None
@@ -549,12 +568,7 @@ def oracle(line, out):
                 "alias": "alias does not replace exactly the matched prefix",
                 "svhost": "simple-vhost document root is not server-root + host + document-root",
                 "evhost": "evhost document root differs from the documented pattern expansion"}[op]
-        detail = ""
-        tm = line_template(line)
-        if b"decb64u" in tm or (op == "app" and int(line.split(" ")[1]) & F_DEC64):
-            detail = " (decb64u)"
-        if b"toupper" in tm:
-            detail = " (toupper)"
+        detail = label_mismatch(lambda: reference(line), out)
         return "%s: %s%s" % (op, what, detail)
     return None
 
@@ -1057,6 +1071,287 @@ def fill_traces(ctx, exe, lines):
     return [l for l in out if l is not None]
 
 
+# ---------------------------------------------------------------------------------------------
+# end-to-end stream: the real lighttpd of the current tree with generated requests; the Location header
+# resp. the resource finally served is compared with the reference interpreter (Python re as matcher)
+# ---------------------------------------------------------------------------------------------
+
+E2E_ONCE = [(rb"^/once/([^?]*)(\?.*)?$", b"/files/$1$2"), (rb"^/both/(.*)$", b"/rep/a/$1"), (rb"^/blank/", b"")]
+E2E_REPEAT = [(rb"^/rep/a/(.*)$", b"/rep/b/$1"), (rb"^/rep/b/(.*)$", b"/files/$1"), (rb"^/loop/(.*)$", b"/loop/x$1"),
+              (rb"^/strip/[^/?]+/(.+)$", b"/strip/$1"), (rb"^/low/(.*)$", b"/files/${tolower:noesc:1}"),
+              (rb"^/up/(.*)$", b"/files/${toupper:noesc:1}"), (rb"^/q/([^?]*)", b"/files/q.txt?orig=${esc:1}${qsa}"),
+              (rb"^/bad/(.*)$", b"nolead/$1"), (rb"^/blank/x", b"/files/a.txt")]
+E2E_REDIRECT = [(rb"^/redir/([^?]*)", b"http://other.example/$1${qsa}"),
+                (rb"^/rscheme/(.*)$", b"${url.scheme}://${url.authority}:${url.port}/n/$1"),
+                (rb"^/rb64/([^?]*)", b"/d/${encb64u:1}/${decb64u:1}"), (rb"^/rpath", b"/np${url.path}?${url.query}"),
+                (rb"^/files/secret", b"/denied"),
+                (rb"^/resc/(.*)$", b"/e/${esc:1}/${escnde:1}/${escpsnde:1}/${noesc:1}/${1}/$$%%$1")]
+E2E_COND = rb"^(\w+)\.cond\.example(?::\d+)?$"
+E2E_COND_REDIRECT = [(rb"^/c/(.*)$", b"/host/%1/$1"), (rb"^/c0/(.*)", b"/%0/$1")]
+E2E_ALIAS = [(b"/al/", b"@ROOT@/aliased/"), (b"/al2", b"@ROOT@/aliased2")]
+E2E_FILES = ["files/a.txt", "files/b/c.txt", "files/A.TXT", "files/q.txt", "files/secret.txt", "files/xa.txt",
+             "strip/z.txt", "rep/a/a.txt", "loop/a.txt", "blank/x", "once/a.txt"]
+E2E_ALIASED = ["aliased/x.txt", "aliased/sub/y.txt", "aliased2/z.txt", "aliased2x.txt"]
+
+
+def conf_list(rules):
+    return ", ".join('"%s" => "%s"' % (k.decode(), v.decode()) for k, v in rules)
+
+
+def e2e_conf_a():
+    return ('url.rewrite-once = ( %s )\nurl.rewrite-repeat = ( %s )\nurl.redirect = ( %s )\n'
+            '$HTTP["host"] =~ "%s" {\n  url.redirect = ( %s )\n}\nalias.url = ( %s )\n' % (
+                conf_list(E2E_ONCE), conf_list(E2E_REPEAT), conf_list(E2E_REDIRECT), E2E_COND.decode(),
+                conf_list(E2E_COND_REDIRECT), conf_list(E2E_ALIAS)))
+
+
+class ReTable:
+    """match results of the rule patterns computed with Python's re (trace syntax of the oracle)"""
+
+    def __init__(self, pats):
+        self.rx = [re.compile(p.decode(), re.ASCII) for p in pats]
+
+    def __contains__(self, t):
+        return True
+
+    def __getitem__(self, t):
+        out = []
+        s = t.decode("ascii")
+        for rx in self.rx:
+            m = rx.search(s)
+            if m is None:
+                out.append("N")
+            else:
+                out.append([None if m.span(k) == (-1, -1) else m.span(k) for k in range(rx.groups + 1)])
+        return out
+
+
+def e2e_expect_a(root, docroot, port, host, target, files):
+    """('redirect', status, location) | ('file', marker) | ('status', code) | ('closed',); Abstain when unsure"""
+    authority = host.lower()
+    once_repeat = E2E_ONCE + E2E_REPEAT
+    tbl = ReTable([p for p, _ in once_repeat])
+    r = ref_rewrite(len(E2E_ONCE), [t for _, t in once_repeat], tbl, target, None, b"http", authority, port)
+    if r[0] == "failed":
+        return ("closed",)        # HANDLER_ERROR: the request is aborted, the connection closed
+    target = r[1]
+    q = target.find(b"?")
+    url = Url(b"http", authority, port, target, None if q < 0 else target[q + 1:])
+    m = re.match(E2E_COND.decode(), authority.decode())
+    if m:
+        rules, cond = E2E_COND_REDIRECT, Caps(authority, [m.span(k) for k in range(2)])
+    else:
+        rules, cond = E2E_REDIRECT, None
+    rr = ref_process([t for _, t in rules], ReTable([p for p, _ in rules])[target], target, cond, url)
+    if rr[0] == "fin":
+        return ("redirect", 301, rr[2])
+    path = target if q < 0 else target[:q]
+    if b"%" in path or path.endswith(b"/"):
+        raise Abstain
+    phys = docroot.encode() + path
+    al = ref_alias(False, [(k, v.replace(b"@ROOT@", root.encode())) for k, v in E2E_ALIAS], docroot.encode(), phys)
+    if al == "403":
+        return ("status", 403)
+    phys = unhx(al.split(" ")[0])
+    if phys in files:
+        return ("file", files[phys])
+    return ("status", 404)
+
+
+E2E_SEGS = [b"a.txt", b"b/c.txt", b"A.TXT", b"q.txt", b"secret.txt", b"nope.txt", b"x.txt", b"sub/y.txt", b"z.txt",
+            b"B/C.TXT", b"a~b!c", b"x%20y", b"Mixed.Case", b"xa.txt", b"QUJD", b"aGVsbG8", b"n0t*b64"]
+E2E_PREFIXES = [b"/files/", b"/once/", b"/both/", b"/blank/", b"/rep/a/", b"/rep/b/", b"/loop/", b"/strip/p/q/",
+                b"/strip/", b"/low/", b"/up/", b"/q/", b"/bad/", b"/redir/", b"/rscheme/", b"/rb64/", b"/rpath/",
+                b"/resc/", b"/c/", b"/c0/", b"/al/", b"/al2/", b"/al2", b"/al", b"/other/", b"/blank/x", b"/al2../"]
+E2E_HOSTS = [b"localhost", b"www.cond.example", b"Api.Cond.Example:8080", b"cond.example", b"x.y.cond.example", b"h.example:81"]
+
+
+def e2e_requests(rng, n):
+    out = []
+    for _ in range(n):
+        t = rng.choice(E2E_PREFIXES) + rng.choice(E2E_SEGS)
+        if rng.random() < 0.35:
+            t += b"?" + rng.choice([b"", b"a=1", b"k=v&x=y", b"Q=UP"])
+        out.append((rng.choice(E2E_HOSTS), t))
+    return out
+
+
+def e2e_fetch(port, reqs):
+    """pipeline the GET requests on one connection; -> list of (status, location, body); None if the
+    response stream cannot be parsed"""
+    from .. import e2e
+    wire = b""
+    for i, (host, target) in enumerate(reqs):
+        wire += b"GET " + target + b" HTTP/1.1\r\nHost: " + host + b"\r\n" + \
+                (b"Connection: close\r\n" if i == len(reqs) - 1 else b"") + b"\r\n"
+    data, closed = e2e.h1_exchange(port, [wire], read_timeout=5.0)
+    try:
+        rs = e2e.parse_responses(data, closed=closed)
+    except e2e.RespParseError:
+        return None
+    rs = [r for r in rs if r["status"] >= 200]
+    return [(r["status"], e2e.hdr(r, "location"), r["body"]) for r in rs]
+
+
+def e2e_same(want, got):
+    if got is None or got[0] == 0:
+        return want[0] == "closed"
+    if want[0] == "redirect":
+        return got[0] == want[1] and got[1] == want[2]
+    if want[0] == "file":
+        return got[0] == 200 and got[2] == want[1]
+    if want[0] == "closed":
+        return False
+    return got[0] == want[1]
+
+
+def e2e_judge(ctx, name, conf, host, target, want, got, relabel=None):
+    """got: (status, location, body) or None (connection closed without a response)"""
+    STATS["judged"] += 1
+    ok = e2e_same(want, got)
+    if got is None:
+        got = (0, None, b"")
+    pre = target.split(b"/")[1][:8].decode("latin-1") if name == "rules" else host.decode("latin-1")[:24]
+    ctx.keys["e2e:%s:%s:%s" % (name, pre, want[0] if want[0] != "status" else want[1])] += 1
+    if not ok:
+        what = {"redirect": "Location header / status of the redirect", "file": "resource served",
+                "status": "response status", "closed": "outcome (request must be aborted: rewrite loop limit / "
+                "invalid rewrite result)"}[want[0]]
+        detail = label_mismatch(lambda: e2e_same(relabel(), got), True) if relabel else ""
+        ctx.violation("e2e:%s:%s%s" % (name, want[0], detail),
+                      "end-to-end (%s): %s differs from the reference interpreter of the configured rules%s"
+                      % (name, what, detail),
+                      {"property": ctx.pid, "kind": "e2e-oracle", "stream": name, "config": conf,
+                       "host": host.decode("latin-1"), "target": target.decode("latin-1"),
+                       "expected": [x.decode("latin-1") if isinstance(x, bytes) else x for x in want],
+                       "got": {"status": got[0], "location": None if got[1] is None else got[1].decode("latin-1"),
+                               "body": got[2][:200].decode("latin-1")}})
+
+
+def e2e_compare(ctx, name, conf, port, reqs, expect):
+    """requests whose reference outcome is an aborted request go on a connection of their own; the others
+    are pipelined; if the pipelined answers cannot be matched they are re-sent one by one"""
+    batch = []
+    for host, target in reqs:
+        ctx.evaluations += 1
+        try:
+            want = expect(host, target)
+        except (Abstain, UnicodeDecodeError):
+            STATS["abstain"] += 1
+            ctx.keys["e2e:%s:abstain" % name] += 1
+            continue
+        if want[0] == "closed":
+            r = e2e_fetch(port, [(host, target)])
+            e2e_judge(ctx, name, conf, host, target, want, r[0] if r else None, lambda: expect(host, target))
+        else:
+            batch.append((host, target, want))
+    if not batch:
+        return
+    rs = e2e_fetch(port, [(h, t) for h, t, _ in batch])
+    if rs is not None and len(rs) == len(batch):
+        for (h, t, want), got in zip(batch, rs):
+            e2e_judge(ctx, name, conf, h, t, want, got, lambda h=h, t=t: expect(h, t))
+    else:
+        for h, t, want in batch:
+            r = e2e_fetch(port, [(h, t)])
+            e2e_judge(ctx, name, conf, h, t, want, r[0] if r else None, lambda h=h, t=t: expect(h, t))
+
+
+def run_e2e(ctx):
+    from .. import e2e
+    t0 = time.time()
+    bd, err = e2e.build_server()
+    if bd is None:
+        ctx.broken.append({"kind": "e2e-build", "names": ["lighttpd"], "log": (err or "")[-3000:]})
+        return
+    rng = ctx.rng
+    nreq = n_cases(ctx, 1200)
+
+    def mkfiles(base, rels):
+        files = {}
+        for rel in rels:
+            p = os.path.join(base, rel)
+            os.makedirs(os.path.dirname(p), exist_ok=True)
+            marker = ("MARK:" + rel).encode()
+            with open(p, "wb") as f:
+                f.write(marker)
+            files[p.encode()] = marker
+        return files
+
+    def drive(name, srv, conf, reqs, expect):
+        try:
+            with srv:
+                for i in range(0, len(reqs), 25):
+                    chunk = reqs[i:i + 25]
+                    e2e_compare(ctx, name, conf, srv.port, chunk, expect)
+                    if not srv.alive():
+                        break
+                alive = srv.alive()
+            rep = srv.sanitizer_report()
+            if rep or not alive:
+                ctx.violation("e2e:%s:sanitizer" % name, "server crashed / sanitizer report during the end-to-end "
+                              "stream (%s)" % name, {"property": ctx.pid, "kind": "e2e-sanitizer", "stream": name,
+                                                      "config": conf, "report": (rep or srv.logs())[-3000:]})
+        except (OSError, RuntimeError) as ex:
+            ctx.broken.append({"kind": "e2e-run", "names": [name], "log": str(ex)[-2000:]})
+
+    # A: rewrite / redirect / alias
+    conf = e2e_conf_a()
+    srv = e2e.Server(bd, conf, modules=("mod_rewrite", "mod_redirect", "mod_alias"))
+    files = mkfiles(srv.docroot, E2E_FILES)
+    files.update(mkfiles(srv.root, E2E_ALIASED))
+    drive("rules", srv, conf, e2e_requests(rng, nreq),
+          lambda h, t: e2e_expect_a(srv.root, srv.docroot, srv.port, h, t, files))
+
+    # B: simple-vhost
+    conf = ('simple-vhost.server-root = "@ROOT@/vhosts/"\nsimple-vhost.default-host = "default.example"\n'
+            'simple-vhost.document-root = "/htdocs/"\n')
+    srvb = e2e.Server(bd, conf, modules=("mod_simple_vhost",))
+    vh = [b"default.example", b"a.example", b"b.a.example", b"xn--e1afmkfd.example"]
+    filesb = mkfiles(srvb.root, ["vhosts/%s/htdocs/index.txt" % h.decode() for h in vh] + ["docroot/index.txt"])
+
+    def expect_b(host, target):
+        v = valid_host(host)
+        if v is None:
+            raise Abstain
+        name = v[0].lower()
+        for cand in (name, b"default.example"):
+            root = unhx(hx(ref_svhost((srvb.root + "/vhosts/").encode(), cand, b"/htdocs/")))
+            if os.path.isdir(root.decode()):
+                p = root + b"index.txt"
+                return ("file", filesb[p]) if p in filesb else ("status", 404)
+        raise Abstain
+
+    hosts_b = vh + [b"A.Example", b"a.example:8080", b"unknown.example", b"b.a.example:1", b"a.example.", b"example",
+                    b"default.example:80", b"B.A.EXAMPLE"]
+    drive("simple-vhost", srvb, conf, [(rng.choice(hosts_b), b"/index.txt") for _ in range(max(60, nreq // 8))], expect_b)
+
+    # C: evhost
+    conf = 'evhost.path-pattern = "@ROOT@/ev/%0/%3/%{2.1}/"\n'
+    srvc = e2e.Server(bd, conf, modules=("mod_evhost",))
+    filesc = mkfiles(srvc.root, ["ev/domain.tld/sub1/d/index.txt", "ev/domain.tld/d/index.txt", "ev/other.org/www/o/index.txt",
+                                 "docroot/index.txt"])
+
+    def expect_c(host, target):
+        if valid_host(host) is None:
+            raise Abstain
+        r = ref_evhost((srvc.root + "/ev/%0/%3/%{2.1}/").encode(), host.lower())
+        if r == "badpat":
+            raise Abstain
+        root = unhx(r)
+        if not os.path.isdir(root.decode()):
+            root = (srvc.docroot + "/").encode()
+        # "//" inside the composed root names the same directory
+        p = re.sub(rb"/+", b"/", root) + b"index.txt"
+        return ("file", filesc[p]) if p in filesc else ("status", 404)
+
+    hosts_c = [b"sub1.domain.tld", b"x.sub1.domain.tld", b"domain.tld", b"www.other.org:81", b"Sub1.Domain.TLD", b"tld",
+               b"a.b.sub1.domain.tld:8080", b"nosuch.example", b"www.other.org", b"sub2.domain.tld"]
+    drive("evhost", srvc, conf, [(rng.choice(hosts_c), b"/index.txt") for _ in range(max(60, nreq // 8))], expect_c)
+    ctx.streams.append({"name": "end-to-end (real lighttpd: rewrite/redirect/alias, simple-vhost, evhost)",
+                        "cases": nreq + 2 * max(60, nreq // 8), "wall_s": round(time.time() - t0, 2)})
+
+
 def run(ctx):
     exe, err = C.build_harness("h_keyvalue")
     if exe is None:
@@ -1070,6 +1365,7 @@ def run(ctx):
                      fill_traces(ctx, exe, gen_rw(ctx)), oracle, classify)
     ctx.differential("alias.url prefix replacement", [exe], "kv", gen_alias(ctx), oracle, classify)
     ctx.differential("simple-vhost / evhost document roots", [exe], "kv", gen_vhost(ctx), oracle, classify)
+    run_e2e(ctx)
     ctx.notes.append("oracle (reference interpreter): judged %d cases, abstained on %d (outside the documented "
                      "domain); PCRE2 vs Python re cross-check on the generated regex subset: %d rule matches "
                      "compared, %d differ" % (STATS["judged"], STATS["abstain"], STATS["re_checked"],
